@@ -28,6 +28,7 @@ from elementpath.tree_builders import get_node_tree
 
 from .base import XPathToken
 from .tokens import ValueToken
+from elementpath.helpers import OPTIONAL_COMMENTS
 
 
 class XPathFunction(XPathToken):
@@ -37,7 +38,7 @@ class XPathFunction(XPathToken):
     __name__: str
     _qname: Optional[QName] = None
     pattern = r'(?<!\$)\b[^\d\W][\w.\-\xb7\u0300-\u036F\u203F\u2040]*' \
-              r'(?=\s*(?:\(\:.*\:\))?\s*\((?!\:))'
+              r'(?=' + OPTIONAL_COMMENTS + r'\((?!\:))'
 
     sequence_types: ta.SequenceTypesType = ()
     "Sequence types of arguments and of the return value of the function."
